@@ -42,6 +42,17 @@ pub fn strategy(cfg: &RunCfg, _s: &'static dyn Proto) -> BoxedStrategy<Case> {
 const LENS_OK: [usize; 5] = [0, 1, 255, 256, 65535];
 const LENS_OVER: [usize; 3] = [65536, 65537, 131072];
 
+fn st_check(step: &str, refused: Result<bool, Fail>, which: u8, what: &str) -> CaseResult {
+    match refused {
+        Err(f) => Err(f),
+        Ok(true) => Ok(()),
+        Ok(false) => Err(Fail::sig(
+            format!("C12/over-limit-not-refused/{step}/{which}"),
+            format!("{step} did not refuse an over-limit {what} (it returned Ok)"),
+        )),
+    }
+}
+
 fn call<T>(what: &str, f: impl FnOnce() -> T) -> Result<T, Fail> {
     guarded(f).map_err(|p| Fail::sig(format!("C12/panic/{what}"), format!("panic in {what}: {p}")))
 }
@@ -138,6 +149,101 @@ pub fn check(s: &'static dyn Proto, c: &Case, st: &mut Stats, _k: &KnownFindings
                 }
             }
         }
+    }
+
+    // ---- (b2) adversarial field values: every group-element / scalar field replaced by the
+    // invalid-encoding table (identity, zero, order, out-of-range, small order, ...); whatever
+    // a decoder accepts is then USED (re-serialised through every codec and fed to the step
+    // that consumes it) - none of this may panic (whether it is accepted is C11's business)
+    {
+        let setup = samples.get(Ty::ServerSetup);
+        let setup_nat = s.ser(Codec::Native, setup);
+        let valid_sk = fieldmap::slice(&m, Ty::ServerSetup, "server_s_sk", &setup_nat).to_vec();
+        let valid_pk = s.setup_public_key(setup);
+        let mut used = 0u64;
+        for ty in ALL_TYS {
+            let native = if DECODERS11.contains(&ty) {
+                s.ser(Codec::Native, samples.get(ty))
+            } else if ty == Ty::PublicKey {
+                valid_pk.clone()
+            } else {
+                valid_sk.clone()
+            };
+            for f in fieldmap::fields(&m, ty) {
+                if !(f.kind.is_group_elem() || f.kind.is_scalar()) {
+                    continue;
+                }
+                let cur = native[f.off..f.off + f.len].to_vec();
+                for (class, bad) in decoders::invalid_encodings(&m, &f, &cur, &mut r, 2) {
+                    let mutated = fieldmap::splice(&native, &f, &bad);
+                    let what = format!("{}::deserialize(field {} := {class})", ty.name(), f.name);
+                    let obj = call(&what, || s.de(Codec::Native, ty, &mutated).ok())?;
+                    st.eval(1);
+                    // key types: also through the raw KeGroup / key-pair API
+                    if ty == Ty::PrivateKey || ty == Ty::KeyPair {
+                        call(&format!("private-key API on {class}"), || {
+                            let _ = s.sk_public_key(&bad);
+                            let _ = s.kg_public_key(&bad);
+                            let _ = s.keypair_from_private_key_slice(&bad);
+                            let _ = s.sk_diffie_hellman(&bad, &valid_pk);
+                            let _ = s.kg_is_zero_scalar(&bad);
+                        })?;
+                    }
+                    if ty == Ty::PublicKey {
+                        call(&format!("public-key API on {class}"), || {
+                            let _ = s.sk_diffie_hellman(&valid_sk, &bad);
+                            let _ = s.kg_diffie_hellman(&valid_sk, &bad);
+                            let _ = s.kg_pk_roundtrip(&bad);
+                        })?;
+                    }
+                    let Some(obj) = obj else { continue };
+                    used += 1;
+                    call(&format!("use of an accepted {} with {} := {class}", ty.name(), f.name), || {
+                        for cd in CODECS {
+                            let img = s.ser(cd, &obj);
+                            let _ = s.de(cd, ty, &img);
+                        }
+                        match ty {
+                            Ty::ServerSetup => {
+                                let _ = s.setup_public_key(&obj);
+                                let _ = s.server_reg_start(&obj, samples.get(Ty::RegReq), b"cred");
+                                for rec in [Some(samples.get(Ty::ServerReg)), None] {
+                                    let _ = s.server_login_start(&mut spec.derive(40).rng(), &obj, rec, samples.get(Ty::CredReq), b"cred", None, Ids::default());
+                                }
+                            }
+                            Ty::RegReq => {
+                                let _ = s.server_reg_start(setup, &obj, b"cred");
+                            }
+                            Ty::RegResp => {
+                                let _ = s.client_reg_finish(s.clone_obj(samples.get(Ty::ClientReg)), &mut spec.derive(41).rng(), b"sample password", &obj, Ids::default(), None);
+                            }
+                            Ty::RegUpload => {
+                                let rec = s.server_reg_finish(&obj);
+                                let _ = s.server_login_start(&mut spec.derive(42).rng(), setup, Some(&rec), samples.get(Ty::CredReq), b"cred", None, Ids::default());
+                            }
+                            Ty::ServerReg => {
+                                let _ = s.server_login_start(&mut spec.derive(43).rng(), setup, Some(&obj), samples.get(Ty::CredReq), b"cred", None, Ids::default());
+                            }
+                            Ty::CredReq => {
+                                let _ = s.server_login_start(&mut spec.derive(44).rng(), setup, Some(samples.get(Ty::ServerReg)), &obj, b"cred", None, Ids::default());
+                            }
+                            Ty::CredResp => {
+                                let _ = s.client_login_finish(s.clone_obj(samples.get(Ty::ClientLogin)), b"sample password", &obj, None, Ids::default(), None);
+                            }
+                            Ty::ClientReg => {
+                                let _ = s.client_reg_finish(obj, &mut spec.derive(45).rng(), b"sample password", samples.get(Ty::RegResp), Ids::default(), None);
+                            }
+                            Ty::ClientLogin => {
+                                let _ = s.client_login_finish(obj, b"sample password", samples.get(Ty::CredResp), None, Ids::default(), None);
+                            }
+                            _ => {}
+                        }
+                    })?;
+                }
+            }
+        }
+        st.label_n("adversarial-field-values-accepted-and-used", used);
+        nontrivial += used;
     }
 
     // ---- (c) every protocol step fed well-formed messages/states from unrelated sessions
@@ -294,6 +400,67 @@ pub fn check(s: &'static dyn Proto, c: &Case, st: &mut Stats, _k: &KnownFindings
                 _ => {}
             }
             if is_over {
+                // per-step refusal: the step that has to encode the over-limit value must itself
+                // return an error (a later step failing is not enough: "refused, never wrapped")
+                let b_ids = Ids {
+                    client: Some(&base),
+                    server: Some(&base),
+                };
+                let step = |name: &str, r: Result<bool, Fail>| -> CaseResult {
+                    st_check(name, r, which as u8, &what)
+                };
+                match which {
+                    P::Pw => {
+                        // blinding does not length-prefix the password; the finish steps do
+                        let r = call("ClientRegistration::finish(over-limit password)", || {
+                            match s.client_reg_start(&mut spec.derive(30).rng(), &pw) {
+                                Err(_) => true,
+                                Ok((req, cst)) => match s.server_reg_start(setup, &req, &cred) {
+                                    Err(_) => true,
+                                    Ok(resp) => s.client_reg_finish(cst, &mut spec.derive(31).rng(), &pw, &resp, b_ids, None).is_err(),
+                                },
+                            }
+                        });
+                        step("ClientRegistration::start/finish", r)?;
+                        let r = call("ClientLogin::finish(over-limit password)", || {
+                            match s.client_login_start(&mut spec.derive(32).rng(), &pw) {
+                                Err(_) => true,
+                                Ok((req, cst)) => {
+                                    match s.server_login_start(&mut spec.derive(33).rng(), setup, Some(&record), &req, &cred, Some(&base), b_ids) {
+                                        Err(_) => true,
+                                        Ok((resp, _)) => s.client_login_finish(cst, &pw, &resp, Some(&base), b_ids, None).is_err(),
+                                    }
+                                }
+                            }
+                        });
+                        step("ClientLogin::start/finish", r)?;
+                    }
+                    P::IdU | P::IdS | P::Ctx => {
+                        let (req, cst) = s.client_login_start(&mut spec.derive(34).rng(), &base).map_err(|e| Fail::new(format!("{e:?}")))?;
+                        let r = call("ServerLogin::start(over-limit parameter)", || {
+                            s.server_login_start(&mut spec.derive(35).rng(), setup, Some(&record), &req, &cred, Some(&ctx), ids).is_err()
+                        });
+                        step("ServerLogin::start", r)?;
+                        // the client, given a response made with in-range parameters
+                        let (resp, _) = s
+                            .server_login_start(&mut spec.derive(36).rng(), setup, Some(&record), &req, &cred, Some(&base), b_ids)
+                            .map_err(|e| Fail::new(format!("control server start failed: {e:?}")))?;
+                        let r = call("ClientLogin::finish(over-limit parameter)", || {
+                            s.client_login_finish(cst, &base, &resp, Some(&ctx), ids, None).is_err()
+                        });
+                        step("ClientLogin::finish", r)?;
+                        if which != P::Ctx {
+                            let r = call("ClientRegistration::finish(over-limit identity)", || {
+                                let (rq, cs) = s.client_reg_start(&mut spec.derive(37).rng(), &base).expect("HARNESS-BUG: reg start");
+                                let rp = s.server_reg_start(setup, &rq, &cred).expect("HARNESS-BUG: server reg start");
+                                s.client_reg_finish(cs, &mut spec.derive(38).rng(), &base, &rp, ids, None).is_err()
+                            });
+                            step("ClientRegistration::finish", r)?;
+                        }
+                    }
+                    P::Cred => {}
+                }
+                st.eval(3);
                 nontrivial += 2;
                 st.label(format!("over-limit:{which:?}:{len}"));
             } else {
@@ -316,7 +483,7 @@ pub const BUDGET: Budget = Budget {
 pub fn run(cfg: &RunCfg) -> (Outcome, EvidenceExtra) {
     let out = run_property(cfg, "C12", crate::suites::suites20(), BUDGET, |s| strategy(cfg, s), check);
     let ev = EvidenceExtra {
-        rule: "per generated case and suite: (a) arbitrary byte strings (0..1200 bytes, and lengths around the valid one) and (b) mutants of valid encodings (1-3 bit flips, truncation, extension, chunks spliced in from other messages) to the native, bincode and JSON decoders of all 11 types and of PublicKey/PrivateKey/KeyPair; (c) every protocol step (ServerRegistration::start, ClientRegistration::finish, ServerRegistration::finish, ServerLogin::start with and without record, ClientLogin::finish, ServerLogin::finish) fed well-formed values from two unrelated runs/servers/passwords in all combinations; (d) each of password, credential id, client identity, server identity, context set to lengths {0,1,255,256,65535} and one of {65536,65537,131072} with the others fixed. Every call runs under catch_unwind: a panic is a violation. (d) also asserts: in-range lengths complete registration and login with equal keys; over-limit password/identity/context never complete (credential ids of any length work). evaluation = one call; non-trivial = accepted mutants, cross-session deliveries and over-limit runs".into(),
+        rule: "per generated case and suite: (a) arbitrary byte strings (0..1200 bytes, and lengths around the valid one) and (b) mutants of valid encodings (1-3 bit flips, truncation, extension, chunks spliced in from other messages) to the native, bincode and JSON decoders of all 11 types and of PublicKey/PrivateKey/KeyPair; (b2) every group-element/scalar field of every type replaced by each entry of the invalid-encoding table (identity, zero, order, out-of-range, small order, non-canonical) and, if a decoder accepts it, the value is re-serialised through all codecs and fed to the step that consumes it, plus the raw key API on the same bytes; (c) every protocol step (ServerRegistration::start, ClientRegistration::finish, ServerRegistration::finish, ServerLogin::start with and without record, ClientLogin::finish, ServerLogin::finish) fed well-formed values from two unrelated runs/servers/passwords in all combinations; (d) each of password, credential id, client identity, server identity, context set to lengths {0,1,255,256,65535} and one of {65536,65537,131072} with the others fixed. Every call runs under catch_unwind: a panic is a violation. (d) also asserts: in-range lengths complete registration and login with equal keys; over-limit password/identity/context never complete (credential ids of any length work). evaluation = one call; non-trivial = accepted mutants, cross-session deliveries and over-limit runs".into(),
         assumptions: vec!["non-termination is caught by the watchdog and reported as inconclusive (exit 2)".into()],
         exhaustive: None,
         extra: Default::default(),
